@@ -106,7 +106,7 @@ inductive Ev where
   | waitPass (tid : Nat) (old : Int)
   | waitBlock (tid : Nat) (old : Int)
   | exec (tid : Nat) (threadArg : Nat) (task : Nat)
-  deriving Repr
+  deriving DecidableEq, Repr
 
 inductive Act where
   | call (c : Api)       -- the dispatching thread, idle, enters an API call
